@@ -13,6 +13,13 @@ import (
 
 // scriptConn is an in-memory net.Conn: Read hands out `data` in chunks whose sizes come from
 // `cuts` (then everything that is left), Write records every call.
+// timeoutErr is what a socket returns when a deadline expires.
+type timeoutErr struct{}
+
+func (timeoutErr) Error() string   { return "i/o timeout" }
+func (timeoutErr) Timeout() bool   { return true }
+func (timeoutErr) Temporary() bool { return true }
+
 type scriptConn struct {
 	data     []byte
 	cuts     []int
@@ -23,6 +30,11 @@ type scriptConn struct {
 	failAt   int // Write call (1-based) that fails; 0 never
 	gate     chan struct{} // if non-nil, end of stream is reported only after the gate is closed
 	endErr   error         // error reported at the end of the stream (default io.EOF)
+	failMode int           // how the failing Write fails: 0 error; 1 partial write (10 bytes) + timeout, later writes succeed; 2 every write from failAt on times out
+	pauseAt  []int         // stream offsets at which the peer pauses: a Read with an armed deadline times out once there
+	consumed int
+	rdArmed  bool
+	wire     []byte        // bytes the socket accepted, in order
 }
 
 func (s *scriptConn) Read(p []byte) (int, error) {
@@ -38,9 +50,23 @@ func (s *scriptConn) Read(p []byte) (int, error) {
 		}
 		return 0, io.EOF
 	}
+	for i, at := range s.pauseAt {
+		if at == s.consumed {
+			s.pauseAt = append(s.pauseAt[:i:i], s.pauseAt[i+1:]...)
+			if s.rdArmed {
+				return 0, timeoutErr{} // the peer is silent for longer than the read deadline
+			}
+			break
+		}
+	}
 	n := len(s.data)
 	if s.k < len(s.cuts) && s.cuts[s.k] < n && s.cuts[s.k] > 0 {
 		n = s.cuts[s.k]
+	}
+	for _, at := range s.pauseAt {
+		if at > s.consumed && at-s.consumed < n {
+			n = at - s.consumed // a pause splits the chunk
+		}
 	}
 	s.k++
 	if n > len(p) {
@@ -48,13 +74,31 @@ func (s *scriptConn) Read(p []byte) (int, error) {
 	}
 	copy(p, s.data[:n])
 	s.data = s.data[n:]
+	s.consumed += n
 	return n, nil
 }
 func (s *scriptConn) Write(p []byte) (int, error) {
 	s.writes = append(s.writes, append([]byte{}, p...))
-	if s.failAt != 0 && len(s.writes) == s.failAt {
-		return 0, errors.New("write failed")
+	if s.failAt != 0 && len(s.writes) >= s.failAt {
+		switch s.failMode {
+		case 0:
+			if len(s.writes) == s.failAt {
+				return 0, errors.New("write failed")
+			}
+		case 1:
+			if len(s.writes) == s.failAt {
+				n := 10
+				if n > len(p) {
+					n = len(p)
+				}
+				s.wire = append(s.wire, p[:n]...)
+				return n, timeoutErr{}
+			}
+		case 2:
+			return 0, timeoutErr{}
+		}
 	}
+	s.wire = append(s.wire, p...)
 	return len(p), nil
 }
 // release lets the scripted stream end (idempotent).
@@ -86,7 +130,7 @@ func (s *scriptConn) Close() error {
 func (s *scriptConn) LocalAddr() net.Addr                { return nil }
 func (s *scriptConn) RemoteAddr() net.Addr               { return nil }
 func (s *scriptConn) SetDeadline(t time.Time) error      { return nil }
-func (s *scriptConn) SetReadDeadline(t time.Time) error  { return nil }
+func (s *scriptConn) SetReadDeadline(t time.Time) error  { s.rdArmed = !t.IsZero(); return nil }
 func (s *scriptConn) SetWriteDeadline(t time.Time) error { s.deadline = append(s.deadline, t); return nil }
 
 // tinyMsg builds a well-formed message 8=F|9=..|35=<t>|58=<v>|10=ccc| with symbolic type and value.
@@ -172,6 +216,10 @@ func H_C04_reader() {
 			sc.cuts[i] = 1
 		}
 	}
+	if p := zz.Param(7); p > 0 {
+		// the peer pauses (longer than any read deadline the library may have armed) inside a field
+		sc.pauseAt = []int{p, p + 17}
+	}
 	buf := zz.Param(5)
 	cn := NewConn(context.Background(), sc, buf, time.Second)
 	var got [][]byte
@@ -205,7 +253,7 @@ func H_C04_reader() {
 // write deadline set before it; a cancelled connection refuses. params: [k, failAt]
 func H_C04_writer() {
 	k := zz.Param(0)
-	sc := &scriptConn{failAt: zz.Param(1)}
+	sc := &scriptConn{failAt: zz.Param(1), failMode: zz.Param(2)}
 	cn := NewConn(context.Background(), sc, 1, 5*time.Second)
 	var sent [][]byte
 	for i := 0; i < k; i++ {
@@ -213,7 +261,7 @@ func H_C04_writer() {
 		sent = append(sent, m)
 		err := cn.Write(m)
 		if sc.failAt != 0 && i+1 >= sc.failAt {
-			zz.Assert(err != nil, "C04: a failed or cancelled write is reported as success")
+			zz.Assert(err != nil, "C04: a failed, timed-out or cancelled write is reported as success")
 		} else {
 			zz.Assert(err == nil, "C04: Write fails on a healthy connection")
 		}
@@ -223,11 +271,20 @@ func H_C04_writer() {
 	if sc.failAt != 0 && sc.failAt <= k {
 		n = sc.failAt
 	}
-	zz.Assert(len(sc.writes) == n, "C04: number of socket writes differs from the number of messages handed over")
-	for i := 0; i < n; i++ {
-		zz.Assert(zz.EqBytes(sc.writes[i], sent[i]), "C04: a message is not written whole, once and in hand-off order")
+	if sc.failMode == 0 {
+		zz.Assert(len(sc.writes) == n, "C04: number of socket writes differs from the number of messages handed over")
+		for i := 0; i < n; i++ {
+			zz.Assert(zz.EqBytes(sc.writes[i], sent[i]), "C04: a message is not written whole, once and in hand-off order")
+		}
 	}
-	zz.Assert(len(sc.deadline) >= n, "C04: no write deadline set before a write")
+	// whatever the socket accepted is a prefix of the hand-off sequence: nothing repeated, nothing interleaved
+	var all []byte
+	for _, m := range sent {
+		all = append(all, m...)
+	}
+	zz.Assert(len(sc.wire) <= len(all), "C04: more bytes on the wire than were handed over (a message was repeated)")
+	zz.Assert(zz.EqBytes(sc.wire, all[:len(sc.wire)]), "C04: the outbound byte stream is not the hand-off sequence (repeated or interleaved bytes)")
+	zz.Assert(len(sc.deadline) >= 1 || k == 0, "C04: no write deadline set before a write")
 }
 
 // H_C04_initiator: the complete Initiator.Serve plumbing (reader goroutine, handler loop, writer
